@@ -384,7 +384,8 @@ def run(ctx):
         reach = [("seq", dict(Family='"seq"', D=4)),
                  ("edge", dict(Family='"edge"', D=1, D2=1, N0=n017, Pats="{1, 2, 3, 4, 5}", Orders='{"tf", "ft"}')),
                  ("size", dict(Family='"size"', D=5))]
-        gen = [("seq", dict(Family='"seq"', D=4), FULL, ()),
+        gen = [("seq", dict(Family='"seq"', D=4), [K_INSTALL], (K_DL1, K_DL2, K_DL3)),
+               ("seq5v", dict(Family='"seq"', D=5, MaxBad=0), [K_INSTALL], (K_DL3, K_DL1, K_DL2)),
                ("edge2", dict(Family='"edge"', D=2, N0="{1, 7, 8, 9, 16}", Pats="{1}", Orders='{"tf"}'), [K_INSTALL], (K_DL1, K_DL2, K_DL3)),
                ("edge1", dict(Family='"edge"', D=1, D2=1, N0=n017, Pats="{1, 2, 3, 4, 5}", Orders='{"tf", "ft"}'), [K_INSTALL], (K_DL3, K_DL2, K_DL1)),
                ("size", dict(Family='"size"', D=5), SIZES, ())]
@@ -394,14 +395,21 @@ def run(ctx):
                  ("edge", dict(Family='"edge"', D=2, D2=1, N0=n017, Pats="{1, 2, 3, 4, 5}", Orders='{"tf", "ft"}')),
                  ("size", dict(Family='"size"', D=6))]
         gen = [("seq", dict(Family='"seq"', D=5), FULL, ()),
+               ("seq6v", dict(Family='"seq"', D=6, MaxBad=0), [K_INSTALL], (K_DL3, K_DL1, K_DL2)),
                ("edge2", dict(Family='"edge"', D=2, N0=n017, Pats="{1}", Orders='{"tf"}'), [K_INSTALL, K_DL3], (K_DL1, K_DL2)),
                ("edge1", dict(Family='"edge"', D=1, D2=1, N0=n017, Pats="{1, 2, 3, 4, 5}", Orders='{"tf", "ft"}'), FULL, ()),
-               ("edge3", dict(Family='"edge"', D=3, N0="{8, 9}", Pats="{1}", Orders='{"ft"}'), [K_INSTALL], (K_DL2, K_DL3, K_DL1)),
+               ("edge3", dict(Family='"edge"', D=3, N0="{8}", Pats="{1}", Orders='{"ft"}'), [K_INSTALL], (K_DL2, K_DL3, K_DL1)),
                ("size", dict(Family='"size"', D=6), SIZES, ())]
-        nrand = 2500
+        nrand = 1500
+    only = [x for x in os.environ.get("C19_ONLY", "").split(",") if x]   # development aid: run a subset of the stages
+    if only:
+        reach = [r for r in reach if "reach" in only]
+        gen = [g for g in gen if g[0] in only or (g[0] == "seq")]
+        ctx.assumptions.append(f"C19_ONLY={','.join(only)}: partial run (development)")
     for name, over in reach:
         mc_reach(ctx, name, over)
-    model_witness(ctx)
+    if not only or "reach" in only:
+        model_witness(ctx)
     total = distinct = 0
     keep = []
     for name, over, kinds, rotate in gen:
@@ -412,6 +420,8 @@ def run(ctx):
     sweep_args = ["--sweep", 70] + (["--lite"] if ctx.quick else [])
     for source, args, maxev in (("sweep 0..70", sweep_args, 2000), (f"random seed={ctx.seed}", ["--random", nrand], 2000)):
         tag = source.split()[0]
+        if only and tag not in only:
+            continue
         trace, dump = ctx.path(f"trace_{tag}.ndjson"), ctx.path(f"prog_{tag}.ndjson")
         d = lib.run_driver(DRV, args + ["--out", trace, "--dump-programs", dump], env={"VERIF_SEED": ctx.seed})
         n, dn = count_dump(dump, seen, opcount)
